@@ -105,8 +105,14 @@ fn main() {
     let scratch = PathBuf::from(format!("/verif/target/scratch/{}", std::process::id()));
     let ctx = Ctx { id: id.clone(), tier, seed, threads, repo_bin, scratch, strict };
     let _ = std::fs::create_dir_all(&ctx.scratch);
-    let case_limit = std::env::var("VERIF_CASE_LIMIT_S").ok().and_then(|s| s.parse::<u64>().ok()).unwrap_or(600);
-    engine::start_watchdog(&ctx.id, std::time::Duration::from_secs(case_limit));
+    // checks that only call library code in-process have millisecond cases; the others run the
+    // binary under its own CPU limits (up to 120 s + 480 s on a re-run)
+    let in_process_only = matches!(id.as_str(), "C06" | "C07" | "C09" | "C12" | "C13" | "C14" | "C15" | "C16" | "C18");
+    let case_limit = std::env::var("VERIF_CASE_LIMIT_S")
+        .ok()
+        .and_then(|s| s.parse::<u64>().ok())
+        .unwrap_or(if in_process_only { 150 } else { 900 });
+    engine::start_watchdog(&ctx.id, std::time::Duration::from_secs(case_limit), ctx.seed, ctx.tier);
 
     let code = if let Some(path) = replay {
         props::replay(&ctx, &path)
